@@ -82,6 +82,12 @@ class MessageManager(interfaces.TokenInterface, interfaces.MessageManager):
             cancellable.cancel()
         self._active_exchanges = None
 
+        # Empty ACKs that are still waiting for their timeout can not be sent
+        # through the transport that is about to be closed
+        for mid, own_timeout in self._piggyback_opportunities.values():
+            own_timeout.cancel()
+        self._piggyback_opportunities = {}
+
         await self.message_interface.shutdown()
 
     #
